@@ -338,6 +338,105 @@ def r4(ctx, facts):
 ALLOW_MISSING = {"UdtStrict": {"c"}, "UdtAllowMissingFirst": {"a", "c"}, "UdtOrderedDefaults": {"b"}, "RowDefaults": set()}
 
 
+def _missing_checks_gate(b, flag_of, _spans):
+    """-> (ok, detail, site). E = blocks that build ValueMissingForUdtField; G = a switch that dominates all of them and has a
+    successor from which none of them is reachable (the checks are skipped on that edge). No such switch: nothing is skipped.
+    Otherwise the skipping edge must be `countdown == 0`, the countdown starting at the number of fields and being decremented
+    only together with raising a visited flag that was false."""
+    E = [bb for bb in sorted(b.live_blocks) for st in b.stmts(bb)
+         if st[0] == "A" and st[2][0] == "agg" and st[2][1][0] == "adt" and st[2][1][2] == "ValueMissingForUdtField"]
+    E = sorted(set(E))
+    if not E:
+        return True, "no missing-field error site (no required field)", None
+    gates = []
+    fin = {bb for bb, c in b.calls() if bb in b.live_blocks and (c.name or c.decl or "").split("::")[-1] == "finish"}
+    if not fin:
+        return False, "no `finish()` of the value builder found: cannot tell the success path", None
+    for g in sorted(b.live_blocks):
+        t = b.term(g)
+        if t[0] != "switch" or not all(b.dominates(g, e) for e in E):
+            continue
+        succs = [tg for _, tg in t[2]] + [t[3]]
+        # the edge skips the checks AND still completes the value (an early type error is not a skipped check)
+        skip = [tg for tg in succs if not (b.reachable_from(tg) & set(E)) and tg not in E and ((b.reachable_from(tg) | {tg}) & fin)]
+        keep = [tg for tg in succs if (b.reachable_from(tg) & set(E)) or tg in E]
+        if skip and keep:
+            gates.append((g, skip, keep))
+    if not gates:
+        return True, "the checks are not skipped on any path", None
+    flags = set(flag_of)
+    for g, skip, keep in gates:
+        t = b.term(g)
+        site = b.term_span(g)
+        if t[1][0] not in ("c", "m"):
+            return False, "the branch that skips the missing-field checks tests a constant", site
+        sd = b.single_def(t[1][1][0])
+        # a gate on the visited flags themselves (`if !(a && b && c)`): the skip edge then knows every flag
+        locs = backward_slice(b, t[1])[0]
+        if not (sd and sd[0] == "stmt" and sd[3][0] == "bin" and sd[3][1] in ("Gt", "Ne", "Eq", "Lt", "Ge", "Le")):
+            if locs & flags and not any(b.local_ty(l) == "usize" for l in locs):
+                continue
+            return False, "the branch that skips the missing-field checks is not a test of the countdown of unvisited fields", site
+        ops = sd[3][2:4]
+        ks = [o for o in ops if o[0] == "k" and o[1] == "int"]
+        vs = [o for o in ops if o[0] in ("c", "m")]
+        if len(ks) != 1 or int(ks[0][3]) != 0 or len(vs) != 1:
+            return False, "the branch that skips the missing-field checks compares something with something other than 0 (%s): only `countdown == 0` proves that every field was visited" % sd[3][1], site
+        # the counter local (through one copy)
+        c = vs[0][1][0]
+        cd = b.single_def(c)
+        if cd and cd[0] == "stmt" and cd[3][0] == "use" and cd[3][1][0] in ("c", "m") and not cd[3][1][1][1]:
+            c = cd[3][1][1][0]
+        inits, decs, other = [], [], []
+        for d in b.defs.get(c, []):
+            if d[0] == "stmt" and d[3][0] == "use" and d[3][1][0] == "k":
+                inits.append(int(d[3][1][3]))
+            elif d[0] == "stmt" and d[3][0] == "use" and d[3][1][0] in ("c", "m"):
+                src = b.single_def(d[3][1][1][0])
+                if src and src[0] == "stmt" and src[3][0] in ("bin", "cbin") and src[3][1] in ("Sub", "SubWithOverflow") \
+                        and src[3][2][0] in ("c", "m") and src[3][2][1][0] == c and src[3][3][0] == "k" and int(src[3][3][3]) == 1:
+                    decs.append(src[1])
+                else:
+                    other.append(d)
+            elif d[0] == "stmt" and d[3][0] in ("bin", "cbin") and d[3][1] in ("Sub", "SubWithOverflow") \
+                    and d[3][2][0] in ("c", "m") and d[3][2][1][0] == c and d[3][3][0] == "k" and int(d[3][3][3]) == 1:
+                decs.append(d[1])
+            else:
+                other.append(d)
+        if len(inits) != 1 or other:
+            return False, "the value tested by the branch that skips the missing-field checks is not a countdown (initialised once from a constant, then only decremented): e.g. a comparison of lengths says nothing about WHICH fields were visited", site
+        if inits[0] != len(flags):
+            return False, "the countdown starts at %d but the struct has %d fields" % (inits[0], len(flags)), site
+        # which edge skips: value 0 of the comparison result for Gt/Ne, value 1 for Eq/Le
+        op = sd[3][1]
+        const_left = ops[0][0] == "k"
+        if const_left:
+            op = {"Gt": "Lt", "Lt": "Gt", "Le": "Ge", "Ge": "Le"}.get(op, op)
+        edges = {int(v): tg for v, tg in t[2]}
+        false_tg, true_tg = edges.get(0, t[3]), (t[3] if 0 in edges else edges.get(1, t[3]))
+        zero_tg = {"Gt": false_tg, "Ne": false_tg, "Eq": true_tg, "Le": true_tg}.get(op)
+        if zero_tg is None or zero_tg not in skip or len(skip) != 1:
+            return False, "the missing-field checks are skipped on an edge that is not `countdown == 0` (comparison %s)" % op, site
+        # every decrement happens where a flag that was false is raised
+        seen_flags = set()
+        for dbb in decs:
+            raised = [st[1][0] for st in b.stmts(dbb) if st[0] == "A" and not st[1][1] and st[1][0] in flags and st[2][0] == "use" and st[2][1][0] == "k" and int(st[2][1][3]) == 1]
+            guard = None
+            for pb in b.pred.get(dbb, []) if isinstance(b.pred, dict) else b.pred[dbb]:
+                pt = b.term(pb)
+                if pt[0] == "switch" and pt[1][0] in ("c", "m"):
+                    gl = backward_slice(b, pt[1])[0] & flags
+                    pe = {int(v): tg for v, tg in pt[2]}
+                    if len(gl) == 1 and pe.get(0) == dbb:
+                        guard = next(iter(gl))
+            if len(raised) != 1 or guard != raised[0]:
+                return False, "the countdown is decremented where no visited flag is raised from false to true (%s): a field visited twice, or an excess field, would count as a required one" % b.term_span(dbb), b.term_span(dbb)
+            seen_flags.add(raised[0])
+        if seen_flags != flags:
+            return False, "not every field's first visit decrements the countdown (%d of %d)" % (len(seen_flags), len(flags)), site
+    return True, "", None
+
+
 def r5(ctx, facts):
     r = ctx.rule("R5", "by-name UDT serialization refuses a UDT that lacks a required field, for exactly the required fields", floor=12)
     for name, (kind, flavor, fields, der) in FAMILY.items():
@@ -375,6 +474,10 @@ def r5(ctx, facts):
                        % (cql, cql, f, [(u, str(sp)) for u, sp in ss] or "no such error site"), ss[0][1] if ss else b.span)
         for cql in sorted(optional):
             r.instance("%s:allow_missing-field-not-required:%s" % (name, cql), cql not in sites, "%r is allow_missing: its absence must not be an error" % cql, b.span, nontrivial=False)
+        # round 10: the required-field checks may be SKIPPED only when every field was visited. The generated code skips
+        # them under a countdown that starts at the number of fields and loses one per field on its first visit.
+        gate_ok, gate_detail, gate_site = _missing_checks_gate(b, flag_of, [sp for ss_ in sites.values() for _, sp in ss_])
+        r.instance("%s:missing-field-checks-skipped-only-when-all-visited" % name, gate_ok, gate_detail, gate_site or b.span)
         extra = sorted(str(k) for k in sites if k not in required and k not in optional)
         r.instance("%s:no-stray-missing-field-error" % name, not extra, "ValueMissingForUdtField is reported for %s, which is no field of the struct" % extra, b.span, nontrivial=False)
 
